@@ -164,7 +164,7 @@ func genReaderOp(t *rapid.T, client, seq int) kit.Cmd {
 	uniq := fmt.Sprintf("c%d-%d", client, seq)
 	idx := func() string { return fmt.Sprintf("%d", rapid.IntRange(-45, 45).Draw(t, "idx")) }
 	mem := func() string { return fmt.Sprintf("m%02d", rapid.IntRange(0, 44).Draw(t, "mem")) }
-	switch gen.Weighted(t, "rop", []int{28, 6, 8, 6, 6, 4, 1, 1, 1, 1}) {
+	switch gen.Weighted(t, "rop", []int{40, 6, 8, 6, 6, 4, 1, 1, 1, 1}) {
 	case 0:
 		return kit.MkCmd("LINDEX", "l0", idx())
 	case 1:
@@ -201,7 +201,7 @@ func genCase(t *rapid.T) Case {
 		}
 		c.Pre = []kit.Cmd{kit.MkCmd(l...), kit.MkCmd(z...), kit.MkCmd(h...), kit.MkCmd(st...)}
 		c.Yield = 0
-		nc, per = 8, rapid.SampledFrom([]int{60, 300}).Draw(t, "rper")
+		nc, per = 12, rapid.SampledFrom([]int{150, 600}).Draw(t, "rper")
 	}
 	for i := 0; i < nc; i++ {
 		var cl Client
